@@ -90,6 +90,7 @@ from beartype._data.check.code.pep.datacodepep586 import (
 from beartype._data.check.code.pep.datacodepep593 import (
     CODE_PEP593_VALIDATOR_IS_format,
     CODE_PEP593_VALIDATOR_METAHINT_format,
+    CODE_PEP593_VALIDATOR_PITH_format,
     CODE_PEP593_VALIDATOR_PREFIX,
     CODE_PEP593_VALIDATOR_SUFFIX_format,
 )
@@ -1115,31 +1116,28 @@ def make_check_expr(
 
                     # If this metahint is ignorable...
                     if hint_child_sane is HINT_SANE_IGNORABLE:
-                        # Expression yielding the value of the current pith,
-                        # defined as either...
-                        hint_curr_expr = (
-                            hint_tree.hint_curr.pith_expr
-                            # If this metahint is annotated by only one beartype
-                            # validator, the most efficient expression yielding
-                            # the value of the current pith is simply the full
-                            # Python expression *WITHOUT* assigning that value
-                            # to a reusable local variable in an assignment
-                            # expression. *NO* assignment expression is needed
-                            # in this case.
-                            #
-                            # Why? Because beartype validators are *NEVER*
-                            # recursed into. Each beartype validator is
-                            # guaranteed to be the leaf of a type-checking
-                            # subtree, guaranteeing this pith to be evaluated
-                            # only once.
-                            if len(hints_child) == 1 else
-                            # Else, this metahint is annotated by two or more
-                            # beartype validators. In this case, the most
-                            # efficient expression yielding the value of the
-                            # current pith is the assignment expression
-                            # assigning this value to a reusable local variable.
-                            hint_tree.pith_curr_assign_expr
-                        )
+                        # If the expression yielding the current pith is
+                        # already a Python identifier (e.g., the root pith or
+                        # a local variable previously assigned to), pass that
+                        # identifier to these validators as is.
+                        if hint_tree.hint_curr.pith_expr.isidentifier():
+                            hint_curr_expr = hint_tree.hint_curr.pith_expr
+                        # Else, that expression is arbitrarily complex. Since
+                        # validators may embed that expression multiple times
+                        # (e.g., once per operand of a compound validator) and
+                        # derive the names of local variables from that
+                        # expression (e.g., "IsAttr"), first localize this
+                        # pith to a local variable and pass that variable.
+                        else:
+                            hint_curr_expr = hint_tree.hint_curr.pith_var_name
+                            hint_tree.func_curr_code += (
+                                CODE_PEP593_VALIDATOR_PITH_format(
+                                    indent_curr=hint_tree.indent_curr,
+                                    pith_curr_assign_expr=(
+                                        hint_tree.pith_curr_assign_expr),
+                                    pith_curr_var_name=(
+                                        hint_tree.hint_curr.pith_var_name),
+                                ))
                     # Else, this metahint is unignorable. In this case...
                     else:
                         # Python expression yielding the value of the current
